@@ -39,6 +39,9 @@ RULE = ("random bait tables on 1..3 chromosomes drawn from canonical and non-can
         "sizes, arguments by position / by keyword / left out when they equal the default (annotate=None, "
         "do_short_names=False, do_split=False, avg_size=200/0.75; access=None, avg_bin_size=150000, "
         "min_bin_size=None). "
+        "Round 4 corpus: every bait zero-width + annotation file (empty table reaches compare_chrom_names), the 3/4 bound "
+        "attained at avg = 4k with the minimum on / one above 3k, the name-length branch of the contig rule with kept and "
+        "dropped untargeted contigs of both kinds, no access table with the last target row nested in an earlier one. "
         "non-trivial = the model output has at least one bin and (antitarget) some target lies on an accessible "
         "contig or (target) at least two baits interact or a bait is split; distinct = distinct case by hash")
 EXHAUSTIVE = {"quick": False, "thorough": False}
@@ -55,6 +58,9 @@ TRUSTED_EXTRA = [
     "tabio.read_auto reading the scratch BED annotation file (C08's subject)",
     "Python `re` semantics of the contig-name pattern as interpreted by ruleMatches (Model/Access.lean)",
     "Python set iteration order in shorten_labels' `min(names, key=len)`: the model lists every minimal name",
+    "harness/settrans.py (reading of the rules over sets of names: sets as duplicate-free lists, comprehensions as "
+    "filters, truthiness of a collection, max(map(len, S)); rules stated at the top of the file) and the round-4 "
+    "additions to harness/exprtrans.py (power of two literals, short-circuit folding, argument_of)",
 ]
 
 CANON = ["chr1", "chr2", "chr10", "chr22", "chrX"]
